@@ -219,6 +219,19 @@ def c06_class(case, obs):
             "timeout": str(any(o.startswith("X") for o in ops)), "cancel": str(any(o in ("C","CB","CC") for o in ops)),
             "inflight": "0" if infl==0 else "1" if infl==1 else "2-3" if infl<=3 else "4-16", "sub": case.get("sub","0")}
 
+def c05_class(case, obs):
+    try:
+        lens = [int(x, 16) for w in case.get("flens", "0").split(",") for x in w.split(".") if x]
+        nw = int(case.get("nw", "0"), 16)
+    except ValueError:
+        lens, nw = [0], 0
+    big = max(lens) if lens else 0
+    size = "<=8KiB" if big <= 8192 else "<=64KiB" if big <= 65536 else "<=1MiB" if big <= (1 << 20) + 200 else "<=4MiB" if big <= (4 << 20) + 200 else "<=16MiB" if big <= (16 << 20) + 200 else ">16MiB"
+    return {"endpoint": case.get("ep", "?"), "scenario": case.get("sc", "?") + ("+wt" if case.get("wt", "0") != "0" else ""),
+            "writers": "1" if nw == 1 else "2-4" if nw <= 4 else "5-16" if nw <= 16 else "17-32",
+            "largest_frame": size, "torn": str("T:" in obs.get("wire", "")),
+            "interrupted": str(any(t.endswith((":int", ":abort")) for t in obs.get("res", "").split(",")))}
+
 PROPS = {
     "C01": {
         "harness": "c01", "driver": "c01", "shards": 16,
@@ -310,7 +323,7 @@ PROPS = {
         "harness": "c04", "driver": "c04", "shards": 2, "harness_shards": 8,
         "classify": c04_class,
         "nontrivial": lambda cls: cls["callers"] != "1" and (cls["reordered"] == "True" or cls["features"] != "none"),
-        "rule": "cases = for each client (blocking, async, WebSocket): every permutation of the reply order for n<=4 (quick) / n<=6 (thorough) concurrent callers on clones of one client, each once plain and once with injected unknown-id, duplicate and (WebSocket) notify frames (reusing in-flight and free ids); random orders with unanswered callers for n<=16 / n<=64; batch_json of 1..40 requests answered in a shuffled order; 200 / 2000 model-sampled interleavings of register/write/receive-match/deliver/timeout/cancel for 2-4 callers, forced by parking threads/tasks at the verif-hooks probe points; observation = caller -> (reply tag | timeout | cancel | io error), subscriber tags, sorted request ids seen by the raw server; distinct = distinct case; non-trivial = >1 caller and (reordered replies or an injected/timeout/cancel step)",
+        "rule": "cases = for each client (blocking, async, WebSocket): every permutation of the reply order for n<=4 (quick) / n<=6 (thorough) concurrent callers on clones of one client, each once plain and once with injected unknown-id, duplicate and (WebSocket) notify frames (reusing in-flight and free ids); random orders with unanswered callers for n<=16 / n<=64; batch_json of 1..40 requests answered in a shuffled order; 200 / 2000 model-sampled interleavings of register/write/receive-match/deliver/timeout/cancel for 2-4 callers forced by parking threads/tasks at the verif-hooks probe points; plus, AsyncClient only, 150 / 1500 cases of forward_message with (a) an in-flight id, (b) a free id, (c) the id the counter reaches next, (d) a notify message, (e) the id of an in-flight forward, and 3 directed + 150 / 1500 generated id-reuse cases (a forward or counter call registering the id of a call that is finished or matched-but-undelivered, the first call then timing out or being cancelled; includes the replay of the defect repaired in 76754fa); the scripted server never answers a request whose id currently belongs to another call; observation = caller -> (reply tag | timeout | cancel | refused | none | io error), subscriber tags, sorted ids of the counter-issued requests; distinct = distinct case; non-trivial = >1 caller and (reordered replies or an injected/timeout/cancel/forward step)",
         "timeout_s": {"quick": 900, "thorough": 3400},
     },
     "C03": {
@@ -343,6 +356,12 @@ PROPS = {
         "harness": "c06", "driver": "c06", "shards": 2, "harness_shards": 16, "classify": c06_class,
         "nontrivial": lambda cls: cls["fault"] != "none" or cls["timeout"] == "True" or cls["cancel"] == "True",
         "rule": "for each client (blocking, async, WebSocket): faults injected by a raw scripted peer after k of n requests were read — clean close, RST (SO_LINGER 0), bad magic, length mismatch, query_length=2^64-21/body_length=100, body_length=2^62, header truncated at 20 and 47 bytes, body truncated at 5 offsets, truncated then RST; on WebSocket also close frame, text frame, reserved bits, masked server frame, unknown opcode — with n = 0..3 (quick) / 0..16 (thorough) calls in flight, with and without per-call timeouts, then two later calls; the same with the reader parked at fail.after_shutdown (subscriber state, a later call, a cancel, then the drain); all lives of 2 / 3 calls over {answered, expired, expiry forced before removal / after take / before lookup via probes, cancelled, cancel forced after take / before lookup, pending}, sequential and overlapped, with late responses, an unknown-id response and forward_message residue probes, then a fresh call that must still work; the stalled-writer scenario (8 MiB request to a peer with 4 KiB SO_RCVBUF that does not read) on all three clients; 150 / 1500 random valid scenarios; 5 s watchdog per wait; distinct = distinct case line; non-trivial = a fault, timeout or cancel occurred",
+        "timeout_s": {"quick": 900, "thorough": 3400},
+    },
+    "C05": {
+        "harness": "c05", "driver": "c05", "shards": 1, "harness_shards": 8, "classify": c05_class,
+        "nontrivial": lambda cls: cls["writers"] != "1" or cls["torn"] == "True",
+        "rule": "per repetition (1 quick, 10 thorough): for each of blocking Client, AsyncClient, WebSocketClient, Server, AsyncServer and WebSocketServer, cases with 32, 16, 1-3 or 2-12 concurrent writers (threads or tasks on clones, pipelined requests, off-reader or inline responses plus pushed notifies) with frame lengths straddling 8 KiB, 16 KiB, 64 KiB, 212992, 1 MiB and 4 MiB (16/32 MiB in thorough) by -1/0/+1; stall with a 200 ms write timeout: an 8-32 MiB frame to a peer whose SO_RCVBUF was set to 4096 before listen/connect and which does not read for 900 ms, on Client, Server and AsyncServer; the same stall without a timeout on every endpoint; cancellation: an AsyncClient / WebSocketClient call aborted or timed out 0-200 ms into writing 8-16 MiB to a stalled peer; every case ends with two probe calls, then the raw peer reads to end of stream and analyses it with an independent byte-exact parser (tag, sequence number, position-keyed body pattern, checksum per frame); small streams are also parsed by the extracted Coq parse_frames; distinct = distinct case; non-trivial = more than one writer or a torn frame",
         "timeout_s": {"quick": 900, "thorough": 3400},
     },
 }
